@@ -441,6 +441,66 @@ def _float_class_tests(F, b):
     return out
 
 
+def _check_free_weight_positive(ctx, F, b, role_name):
+    """"More symbols than representable": every symbol gets one unit of probability up front and the rest, the free weight
+    2^PRECISION - len, is distributed in proportion to the float weights.  The table size guard must leave that free weight
+    positive (len < 2^PRECISION): with len == 2^PRECISION the scale is 0, the eager models degenerate to uniform and the lazy
+    decoder divides by zero.  Decided with difference bounds over the atoms len and wrapping_pow2(PRECISION) on every accepting
+    path (the subtraction `wrapping_pow2(P) - c` in a guard is read as plain `Q - c`; for PRECISION == usize::BITS, where Q wraps
+    to 0, a slice cannot reach that length anyway)."""
+    from vlib import dbm as dbmmod
+    key = 'R6/free-weight-positive/' + (('validator:' + role_name) if role_name else b.defpath)
+    role = 'the table size guard leaves a positive free weight (len < 2^PRECISION)'
+    ev, paths = rules.evaluate(b)
+    is_q = lambda x: isinstance(x, tuple) and x and x[0] == 'call' and str(x[1]).endswith('wrapping_pow2')
+
+    def plain(t):
+        def f(n):
+            if n and n[0] == 'bin' and n[1] in ('Sub.w', 'Add.w') and (is_q(n[2]) or is_q(n[3])) and (sym.is_int(n[2]) or sym.is_int(n[3])):
+                return ('bin', n[1][:-2], plain(n[2]), plain(n[3]))
+            return None
+        return effects.rebuild(t, f)
+    n_ok = 0
+    bad = None
+    for r in paths or []:
+        if r.end != 'return' or rules.ret_shape(r.ret)[0] == 'Err':
+            continue
+        n_ok += 1
+        preds = [(plain(rules.inline_pure(F, t)), v, bb) for t, v, bb in r.preds]
+        qs = {x for t, v, _ in preds for x in sym.subterms(t) if is_q(x)}
+        lens = {x for t, v, _ in preds for x in sym.subterms(t) if isinstance(x, tuple) and x and x[0] == 'len'}
+        d = dbmmod.DBM()
+        dbmmod.harvest(d, preds)
+        if not qs or not lens:
+            bad = bad or ('unresolved', 'no comparison of the table length with wrapping_pow2(PRECISION) on an accepting path')
+        elif not any(d.entails_le(L, Q, strict=True) for L in lens for Q in qs):
+            bad = ('bad', 'an accepting path only knows len <= 2^PRECISION (or less): a table with exactly 2^PRECISION entries is accepted, its free weight 2^PRECISION - len is zero, so the scale is 0 - the lazy decoder divides by it and returns the last symbol for every quantile')
+    if n_ok == 0:
+        return
+    def callers_validated():
+        fp = anchors.validators(F).get('fixed_point')
+        cs = [c for c in F.bodies if c.promoted is None and not is_test(c) and any((callee(t) or {}).get('def') == b.defpath for _, t in c.calls())]
+        def reaches(c, depth=2):
+            for x in closure_closure(F, c):
+                for _, t in x.calls():
+                    d = (callee(t) or {}).get('def')
+                    if d == fp.defpath:
+                        return True
+                    nb = F.by_def.get(d)
+                    if depth and nb is not None and nb is not c and nb.defpath != b.defpath and reaches(nb, depth - 1):
+                        return True
+            return False
+        return fp is not None and cs and all(reaches(c) for c in cs)
+    if bad and (output_validated(F, b) or callers_validated()):
+        return ctx.ok('R6', role, b.defpath, 'the quantised table passes the fixed-point validator (total exactly 2^PRECISION, no zero entry), which refuses an over-long table', key=key)
+    if bad and bad[0] == 'bad':
+        ctx.bad('R6', role, b.defpath, bad[1], key=key, loc=rules.loc(b))
+    elif bad:
+        ctx.unresolved('R6', role, b.defpath, bad[1], key=key)
+    else:
+        ctx.ok('R6', role, b.defpath, 'every accepting path entails len < wrapping_pow2(PRECISION)', key=key)
+
+
 def check_sibling_agreement(ctx, F):
     _norm_tests = {}
     ingesters = []
@@ -471,6 +531,7 @@ def check_sibling_agreement(ctx, F):
             ctx.bad('R4', role, b.defpath, 'no element is ever compared with zero and the resulting cdf is not validated: a negative weight (e.g. [3.0, -2.0, 1.0], positive sum) yields a non-monotone cdf', key=key, loc=rules.loc(b))
         check_supplied_normalization(ctx, F, b, role_name)
         _norm_tests[b.defpath] = _float_class_tests(F, b)
+        _check_free_weight_positive(ctx, F, b, role_name)
         k2 = 'R4/length-guard/' + (('validator:' + role_name) if role_name else b.defpath)
         (ctx.ok if has_len_guard(F, b) else ctx.bad)('R4', 'tables with fewer than two entries are rejected', b.defpath,
                                                      'len < 2 guard present' if has_len_guard(F, b) else 'no `len < 2` rejection found', key=k2)
